@@ -14,6 +14,9 @@ Correspondence sections (every call goes to the *real* WeasyPrint function, in-p
                       moves the box, and on a box without position_x
   stacking            one-page block/paragraph documents biased to margin collapsing, laid out by the real pipeline,
                       against the pagination model (position_y, margins, heights of every box, y of every line)
+  sibling-collapse    two siblings of 13 x 13 kinds (block, columns, table, flex, grid, ...) separated by empty blocks: the
+                      distance between their border boxes against collapse_margin of the adjoining margins
+  wrapper             metamorphic pair: the content of <body> wrapped in a plain <div> (one tall page): nothing moves
   translation         metamorphic pair: wide-grammar documents rendered twice, the page area moved by (dx, dy): every box
                       of every page moves by exactly (dx, dy) (verified comparator Model/UsedShift.lean)
   documents           random trees of block divs rendered with harness/docs.py; every block box's used
@@ -1501,6 +1504,65 @@ SIBLING_DOCS = [
 ]
 
 
+SIBLING_KINDS = {
+    # what stands before / after the margins: ordinary blocks and the containers that are laid out by another
+    # function than block_container_layout (columns_layout, table_wrapper / table_layout, flex_layout, grid_layout)
+    'block': '<div id=ID style="STYLE">x y</div>',
+    'para': '<p id=ID style="STYLE">x y z</p>',
+    'fixed-height': '<div id=ID style="height:12px;STYLE"></div>',
+    'columns': '<div id=ID style="columns:2;STYLE">x y z</div>',
+    'table': '<table id=ID style="STYLE"><tr><td>x</td><td>y</td></tr></table>',
+    'flex': '<div id=ID style="display:flex;STYLE"><div>x</div><div>y</div></div>',
+    'grid': '<div id=ID style="display:grid;grid-template-columns:1fr 1fr;STYLE"><div>x</div><div>y</div></div>',
+    'list': '<ul id=ID style="STYLE"><li>x</li><li>y</li></ul>',
+    'bordered': '<div id=ID style="border:1px solid;padding:2px;STYLE"><p style="margin:5px 0">x</p></div>',
+    'float-first': ('<div id=ID style="STYLE"><div style="float:left;width:10px;height:5px"></div>'
+                    '<p style="margin:0">x</p></div>'),
+    'bfc': '<div id=ID style="overflow:hidden;STYLE"><p style="margin:7px 0">x</p></div>',
+    'inline-block-line': '<div id=ID style="STYLE"><span style="display:inline-block">x</span></div>',
+}
+
+
+def gen_sibling_case(rng):
+    """#a, then 0-2 empty blocks that collapse through, then #b: the margins that adjoin between the bottom border
+    edge of #a and the top border edge of #b.  #a / #b may also be a plain wrapper whose last / first child brings
+    its own margin into the set (CSS 2.1 8.3.1)."""
+    def margin():
+        r = rng.random()
+        return 0 if r < .2 else rng.choice([2, 3, 5, 8, 10, 12, 15, 20]) if r < .8 else -rng.choice([2, 3, 6, 8])
+    kinds = list(SIBLING_KINDS) + ['nested']
+    ka, kb = rng.choice(kinds), rng.choice(kinds)
+    if ka == 'float-first':
+        # a negative collapsed margin would pull #b over the float inside #a: a box that establishes a new
+        # formatting context (table, flex, grid, columns, overflow) is then moved clear of the float (CSS 2.1 9.5),
+        # which is not margin collapsing: keep the margins non-negative after a box that holds a float
+        plain = margin
+
+        def margin():
+            return abs(plain())
+    mb, mt = margin(), margin()
+    ms = [mb]
+    if ka == 'nested':
+        inner = margin()
+        a = f'<div id=a style="margin-bottom:{mb}px"><p style="margin:0 0 {inner}px">x</p></div>'
+        ms.append(inner)
+    else:
+        a = SIBLING_KINDS[ka].replace('ID', 'a').replace('STYLE', f'margin-bottom:{mb}px')
+    between = ''
+    for _ in range(rng.choice([0, 0, 1, 2])):
+        top, bottom = margin(), margin()
+        between += f'<div style="margin:{top}px 0 {bottom}px"></div>'
+        ms += [top, bottom]
+    ms.append(mt)
+    if kb == 'nested':
+        inner = margin()
+        b = f'<div id=b style="margin-top:{mt}px"><p style="margin:{inner}px 0 0">x</p></div>'
+        ms.append(inner)
+    else:
+        b = SIBLING_KINDS[kb].replace('ID', 'b').replace('STYLE', f'margin-top:{mt}px')
+    return {'name': f'{ka}/{kb}', 'html': a + between + b, 'ms': ms, 'kinds': (ka, kb)}
+
+
 def sibling_distance(html):
     """Distance from the bottom border edge of #a to the top border edge of #b."""
     document = docs.render(SIBLING_HEAD + html)
@@ -1575,7 +1637,7 @@ class C05(PropCheck):
     id = 'C05'
     extractors = ()
     modules = ('WpModel.Props.C05', 'WpModel.Props.C05Pm', 'WpModel.Props.C05Check', 'WpModel.Props.C05Refine',
-               'WpModel.Props.C05Shrink', 'WpModel.Props.C05Tree', 'WpModel.Props.C05Shift', 'WpModel.Witness.C05', 'WpModel.Witness.C05Pm', 'WpModel.Witness.C05Shrink')
+               'WpModel.Props.C05Shrink', 'WpModel.Props.C05Tree', 'WpModel.Props.C05Shift', 'WpModel.Props.C05Meta', 'WpModel.Witness.C05', 'WpModel.Witness.C05Pm', 'WpModel.Witness.C05Shrink')
     trusted_base = (
         'modelled, not verified: collapse_margin, percentage, resolve_percentages, adjust_box_sizing, '
         'handle_min_max_width/height, block_level_width, page_width_or_height are hand transcriptions '
@@ -1881,6 +1943,38 @@ class C05(PropCheck):
                 sec.add(line, 'ok', meta=meta, nontrivial=stats['flow'] >= 3, tags=tags)
         run.extra['used_values_boxes'] = dict(used_stats)
 
+        sec = run.section('sibling-collapse', 'two siblings of 13 x 13 kinds (plain block, paragraph, fixed height, '
+                          'multi-column container, table, flex, grid, list, bordered, float first, new formatting context, '
+                          'inline-block line, plain wrapper whose child margin joins) separated by 0-2 empty blocks: '
+                          'the distance between their border boxes in the rendered document against collapse_margin '
+                          'of all the margins that adjoin (clause h across the containers laid out by columns_layout, '
+                          'table / flex / grid layout); non-trivial = at least one positive and one negative margin '
+                          'or an empty block in between; margins are non-negative after a box holding a float (CSS 9.5 moves a '
+                          'new formatting context clear of floats)')
+        for i in range(run.n(150, 4000)):
+            case = gen_sibling_case(rng)
+            ms = [F(m) for m in case['ms']]
+            impl = docs.outcome(lambda: atom(sibling_distance(case['html'])))
+            sec.add(sx.line('collapse', ms), impl,
+                    meta={'as': 'sibling-distance', 'name': case['name'], 'html': SIBLING_HEAD + case['html'],
+                          'ms': [atom(m) for m in ms]},
+                    nontrivial=len(ms) > 2 or (any(m > 0 for m in ms) and any(m < 0 for m in ms)),
+                    tags=[f'a:{case["kinds"][0]}', f'b:{case["kinds"][1]}', f'margins{min(len(ms), 6)}'])
+
+        sec = run.section('wrapper', 'metamorphic pair "neutral wrapper div": wide-grammar and position-sensitive '
+                          'documents on one tall page, rendered with and without a plain <div> around the content of '
+                          '<body>: the subtree of <body> against the subtree of the wrapper through the verified '
+                          'comparator (Model/UsedShift.lean, translation (0, 0)): same shape, every box where it was, '
+                          'the wrapper with the geometry of <body>; the implementation side is the constant claim '
+                          '"ok"; non-trivial = at least 3 boxes')
+        for k in range(run.n(40, 900)):
+            for line, impl, meta, tags, stats in c05_used.wrap_cases(rng, adversarial=(k % 4 == 3),
+                                                                    probe=(k % 3 == 2)):
+                if line is None:
+                    sec.tags['render-error (C02)'] += 1
+                    continue
+                sec.add(line, impl, meta=meta, nontrivial=sum(stats.values()) >= 3, tags=tags)
+
         sec = run.section('translation', 'metamorphic pair "uniform translation" on wide-grammar documents '
                           '(harness/widegen.py, rtl mixed in; one in three is a small document of position-sensitive '
                           'constructs: empty / zero-height floats, clearance, absolute / fixed / relative boxes with '
@@ -1954,6 +2048,11 @@ class C05(PropCheck):
             from harness import c05_used
             if impl != 'ok' or d['model'].startswith('bad '):
                 return f'page {meta["page_index"]}: ' + c05_used.explain_shift(d['line'], impl, d['model'])
+            return None
+        if section == 'wrapper':
+            from harness import c05_used
+            if impl != 'ok' or d['model'].startswith('bad '):
+                return c05_used.explain_wrap(d['line'], impl, d['model'])
             return None
         if section == 'sibling-distance':
             return clause_sibling(meta, impl)
@@ -2116,6 +2215,17 @@ class C05(PropCheck):
         section = meta.get('as') or inp.get('section')
         if section == 'regression-probe':
             return probe_regression(meta['id'])
+        if section == 'wrapper':
+            from harness import c05_used
+            from vlib import lean
+            docs.quiet()
+            res = c05_used.wrap_line(meta['html'])
+            if res is None:
+                return None
+            if isinstance(res, str):
+                return c05_used.explain_wrap('', res, '')
+            out = lean.run_driver(self.driver, [res[0]])[0]
+            return c05_used.explain_wrap(res[0], 'ok', out) if out.startswith('bad ') else None
         if section == 'translation':
             from harness import c05_used
             from vlib import lean
